@@ -106,12 +106,15 @@ def sv_worker(job: dict) -> dict:
         _verif.set_sink(ev)
         try:
             if job.get("twice"):
-                # the same configuration object feeds more than one run (as with several trajectories, or a user calling
+                # the same backend object (hence the same stored configuration) feeds more than one run (as with several trajectories, or a user calling
                 # run() again): the run under test is the SECOND one
-                SVBackend(seq, config=cfg).run()
+                backend = SVBackend(seq, config=cfg)
+                backend.run()
                 ev.clear()
                 _verif.reset()
-            res = SVBackend(seq, config=cfg).run()
+                res = backend.run()
+            else:
+                res = SVBackend(seq, config=cfg).run()
         finally:
             _verif.set_sink(None)
         out["stage"] = "reference"
@@ -138,14 +141,15 @@ def sv_worker(job: dict) -> dict:
 
         steps = [e for e in ev if e["ev"] == "sv_step"]
         used_mats = []
+        RT = 1e-6   # Pulser rounds register coordinates before taking distances: its C6/r^6 differs from the raw-coordinate value at ~1e-7 relative
         for k in range(K):
             cands = allowed_mats(k)
             pick = cands[0]
-            if k < len(steps) and len(cands) > 1:
+            if k < len(steps):
                 m_ = np.asarray(steps[k]["matrix"], dtype=float)
                 for c_ in cands:      # a step straddling the SLM end may use either matrix: follow the emulator's choice
-                    if m_.shape == c_.shape and np.allclose(m_, c_, rtol=1e-9, atol=1e-12):
-                        pick = c_
+                    if m_.shape == c_.shape and np.allclose(m_, c_, rtol=RT, atol=1e-9) and np.array_equal(m_, m_.T):
+                        pick = m_     # validated against the register-derived matrix: use the emulator's digits
             used_mats.append(pick)
         single_ops = [np.asarray(L.detach().numpy()) for L in data.lindblad_ops]
         if lind:
@@ -177,7 +181,7 @@ def sv_worker(job: dict) -> dict:
                     if abs(e["dt"] - (T[k + 1] - T[k]) * 1e-3) <= 1e-15 + 1e-12 * abs(e["dt"]):
                         dti = k if (dti == -1 or k == step_i) else dti
                 m = np.asarray(e["matrix"], dtype=float)
-                mat_ok = step_i < K and any(m.shape == a.shape and np.allclose(m, a, rtol=1e-9, atol=1e-12) for a in allowed_mats(step_i))
+                mat_ok = step_i < K and np.array_equal(m, m.T) and any(m.shape == a.shape and np.allclose(m, a, rtol=RT, atol=1e-9) for a in allowed_mats(step_i))
                 trace.append({"ev": "step", "rowIdx": row, "dtIdx": dti, "matOK": bool(mat_ok), "kind": e["kind"]})
                 step_i += 1
             elif e["ev"] == "sv_evolve":
